@@ -142,9 +142,11 @@ fn c02_parts(div: u64) -> Vec<Part> {
     vec![
         part(Box::new(Erased(engines::images::SkrifaImages)), 80_000 / div, 2_000_000 / div, "C02", 20),
         part(Box::new(Erased(engines::images::ReadEnum { skrifa: true })), 700 / div, 5_600 / div, "C02", 90),
+        part(Box::new(Erased(engines::images::OutlineBitEnum)), engines::images::outline_chunk_count_quick() / div, 12 * engines::images::outline_chunk_count_quick() / div, "C02", 90),
         part(Box::new(Erased(engines::drawhist::DrawHistory { stale: true })), 600_000 / div, 12_000_000 / div, "C02", 20),
         part(Box::new(Erased(engines::ift::IftFaultFree)), 50_000 / div, 1_000_000 / div, "C02", 20),
         part(Box::new(Erased(engines::ift::IftFaulty)), 100_000 / div, 2_000_000 / div, "C02", 20),
+        part(Box::new(Erased(engines::ift::IftHostile)), 150_000 / div, 3_000_000 / div, "C02", 20),
     ]
 }
 
